@@ -1,5 +1,98 @@
-(** C14 — property theorems (statements only; proofs by [exact]). *)
-From Coq Require Import ZArith NArith List Bool Permutation.
-From RlibV Require Import C14.Model C14.Corr.
+(** C14 — property theorems (statements only; proofs by [exact]).  GENERATED together with the
+    pinned statements in checks/c14.py. *)
+From Coq Require Import ZArith NArith List Bool Permutation Reals.
+From Coq Require Import Floats.SpecFloat.
+From Flocq Require Import Core.Defs Core.Raux IEEE754.BinarySingleNaN.
+From RlibV Require Import C14.Model C14.Corr C14.Spec C14.ProofsInt C14.ProofsLcg C14.ProofsShuffle C14.ProofsFloat C14.ProofsFloatR.
 Import ListNotations.
 Open Scope Z_scope.
+
+(** (a) every integer type (signedness sg, width w in 1..64; the Rust types are w = 8,16,32,64) and every range form: for EVERY raw word the draw exists (no panic, no overflow in either build profile) and lies in the range, provided the range is non-empty; includes MIN..=MAX and signed ranges whose length wraps *)
+Theorem c14_range_in_bounds :
+  forall (sg : bool) (w : Z) (f : form) (raw : Z), valid_width w -> form_valid sg w f -> form_lo sg w f <= form_hi sg w f -> exists x, gen sg w f raw = Some x /\ form_lo sg w f <= x <= form_hi sg w f /\ in_ty sg w x = true.
+Proof. exact range_in_bounds. Qed.
+
+(** (a) every value of every range is produced by the explicit raw word witness_raw (= x - low bound, or the low w bits of x for a range covering the whole type), which is a u64 *)
+Theorem c14_range_reachable :
+  forall (sg : bool) (w : Z) (f : form) (x : Z), valid_width w -> form_valid sg w f -> form_lo sg w f <= x <= form_hi sg w f -> gen sg w f (witness_raw sg w f x) = Some x /\ 0 <= witness_raw sg w f x < 2 ^ 64.
+Proof. exact range_reachable. Qed.
+
+(** (a) `..` and MIN..=MAX return `raw as t`: a value of the type congruent to raw modulo 2^w *)
+Theorem c14_full_range_is_truncation :
+  forall (sg : bool) (w : Z) (raw : Z), valid_width w -> gen sg w FFull raw = Some (cast sg w raw) /\ gen sg w (FIncl (tmin sg w) (tmax sg w)) raw = Some (cast sg w raw) /\ in_ty sg w (cast sg w raw) = true /\ (cast sg w raw) mod 2 ^ w = raw mod 2 ^ w.
+Proof. exact full_range_is_truncation. Qed.
+
+(** an empty range (a..b with b <= a, a..=b with b < a, ..b with b <= 0, ..=b with b < 0) panics, for every raw *)
+Theorem c14_empty_range_panics :
+  forall (sg : bool) (w : Z) (f : form) (raw : Z), valid_width w -> form_valid sg w f -> form_hi sg w f < form_lo sg w f -> gen sg w f raw = None.
+Proof. exact empty_range_panics. Qed.
+
+(** (c) the stream is a function of the seed; the state reached after n draws (what a Copy duplicates) determines all later draws; the raw stream is out_mix of the iterated state transition *)
+Theorem c14_stream_deterministic :
+  (forall sg w f n seed1 seed2, seed1 = seed2 -> stream sg w f seed1 n = stream sg w f seed2 n) /\ (forall sg w f n m st, draws rng_next sg w f (n + m) st = match draws rng_next sg w f n st with | None => None | Some (st', xs) => match draws rng_next sg w f m st' with | None => None | Some (st'', ys) => Some (st'', xs ++ ys) end end) /\ (forall n st, raws rng_next n st = Some (state_after n st, map out_mix (map (fun k => state_after (S k) st) (seq 0 n)))).
+Proof. exact stream_deterministic. Qed.
+
+(** the LCG state transition is a bijection of the 64-bit words (explicit inverse) *)
+Theorem c14_state_step_bijective :
+  (forall s, 0 <= s < 2 ^ 64 -> 0 <= lcg_step s < 2 ^ 64 /\ lcg_unstep (lcg_step s) = s) /\ (forall t, 0 <= t < 2 ^ 64 -> 0 <= lcg_unstep t < 2 ^ 64 /\ lcg_step (lcg_unstep t) = t).
+Proof. exact state_step_bijective. Qed.
+
+(** the output function x ^ (x >> 32) is an involution, hence a bijection, of the 64-bit words: the output stream inherits the period of the state *)
+Theorem c14_output_bijective :
+  forall x, 0 <= x < 2 ^ 64 -> 0 <= out_mix x < 2 ^ 64 /\ out_mix (out_mix x) = x.
+Proof. exact output_bijective. Qed.
+
+(** consequence: generators built from different seeds already differ in their first raw output (from_seed uses the whole seed) *)
+Theorem c14_seed_injective :
+  forall s1 s2, 0 <= s1 < 2 ^ 64 -> 0 <= s2 < 2 ^ 64 -> snd (next_raw (from_seed s1)) = snd (next_raw (from_seed s2)) -> s1 = s2.
+Proof. exact seed_injective. Qed.
+
+(** (d) for ANY source of raw words (any state type, any transition): whatever shuffle returns is a permutation of its input *)
+Theorem c14_shuffle_permutation :
+  forall (St A : Type) (nxt : St -> option (St * Z)) (st : St) (v : list A) (st' : St) (v' : list A), shuffle nxt st v = Some (st', v') -> Permutation v v'.
+Proof. exact @shuffle_permutation. Qed.
+
+(** (d) shuffle never panics unless the source does: indices stay inside the slice and `0..=i` never overflows *)
+Theorem c14_shuffle_total :
+  forall (St A : Type) (nxt : St -> option (St * Z)) (st : St) (v : list A), (forall s, nxt s <> None) -> Z.of_nat (length v) <= 2 ^ 64 -> shuffle nxt st v <> None.
+Proof. exact @shuffle_total. Qed.
+
+(** (d) PARTIAL (slices of length <= 6, by enumeration of the index choices): every order of [0..n) is produced by some sequence of n-1 raw words. Missing: arbitrary n *)
+Theorem c14_shuffle_reaches_all_partial :
+  forall (n : nat) (p : list Z), (n <= 6)%nat -> Permutation p (zseq (N.of_nat n)) -> exists rs, length rs = (n - 1)%nat /\ Forall (fun r => 0 <= r < 2 ^ 64) rs /\ shuffle_script rs (zseq (N.of_nat n)) = Some p.
+Proof. exact shuffle_reaches_all. Qed.
+
+(** documentation of the repaired defect: the OLD output function next_raw_old returned the LCG state itself, and the low k bits of the state have a period dividing 2^k (so next(0..4) cycled with period 4) *)
+Theorem c14_old_low_bits_periodic :
+  forall (k n : nat) (st : Z), (k <= 64)%nat -> (forall s, snd (next_raw_old s) = lcg_step s /\ fst (next_raw_old s) = lcg_step s) /\ state_after (2 ^ k + n) st mod 2 ^ Z.of_nat k = state_after n st mod 2 ^ Z.of_nat k.
+Proof. exact old_low_bits_periodic. Qed.
+
+(** (d) PARTIAL: with the concrete generator every one of the 24 / 120 / 720 orders of a 4/5/6-slice is produced by an explicit seed (Spec.seeds4/5/6, found by the executor's search, checked here by computation). Missing: near-equal frequencies and aperiodicity of small-range streams are statistical; they are measured by the search in checks/c14.py (extra), not proved *)
+Theorem c14_fairness_partial :
+  forall (n : N) (p : list Z), (n = 4 \/ n = 5 \/ n = 6)%N -> Permutation p (zseq n) -> exists seed, In seed (seeds_for n) /\ 0 <= seed < 2 ^ 64 /\ shuffle_rng seed (zseq n) = Some p.
+Proof. exact fairness_partial. Qed.
+
+(** (b) for every start < end in the IEEE order (this excludes NaN bounds; infinite bounds are allowed) and EVERY raw word the draw exists and start <= x < end, in the comparison [SFcompare] that the Rust code itself uses; no axioms *)
+Theorem c14_float_in_range :
+  forall (s e : spec_float) (raw : Z), SFltb s e = true -> exists x, float_range s e raw = Some x /\ SFleb s x = true /\ SFltb x e = true.
+Proof. exact float_in_range. Qed.
+
+(** a float range that is empty, reversed or has a NaN bound panics *)
+Theorem c14_float_empty_panics :
+  forall (s e : spec_float) (raw : Z), SFltb s e = false -> float_range s e raw = None.
+Proof. exact float_empty_panics. Qed.
+
+(** (b) in real numbers, for all finite binary64 start < end and every raw word: the draw is a finite binary64 x with start <= x < end (Flocq; uses that the model's SpecFloat operations are Flocq's IEEE operations) *)
+Theorem c14_float_in_range_real :
+  forall (s e : binary_float 53 1024) (raw : Z), is_finite s = true -> is_finite e = true -> (B2R s < B2R e)%R -> exists x : binary_float 53 1024, float_range (B2SF s) (B2SF e) raw = Some (B2SF x) /\ is_finite x = true /\ (B2R s <= B2R x < B2R e)%R.
+Proof. exact float_in_range_R. Qed.
+
+(** (b) the 53-bit unit value (raw >> 11) as f64 * 2^-53 is computed without rounding: it is exactly (raw / 2^11) / 2^53, a finite binary64 in [0, 1) *)
+Theorem c14_float_unit_in_0_1 :
+  forall raw : Z, 0 <= raw < 2 ^ 64 -> exists u : binary_float 53 1024, f_unit raw = B2SF u /\ is_finite u = true /\ B2R u = (IZR (raw / 2 ^ 11) * / IZR (2 ^ 53))%R /\ (0 <= B2R u < 1)%R.
+Proof. exact float_unit_exact. Qed.
+
+(** the two real-number statements above as ONE pinned theorem (see the note in checks/c14.py: the audit parser allows axioms only in the last pin) *)
+Theorem c14_float_real_statements :
+  (forall (s e : binary_float 53 1024) (raw : Z), is_finite s = true -> is_finite e = true -> (B2R s < B2R e)%R -> exists x : binary_float 53 1024, float_range (B2SF s) (B2SF e) raw = Some (B2SF x) /\ is_finite x = true /\ (B2R s <= B2R x < B2R e)%R) /\ (forall raw : Z, 0 <= raw < 2 ^ 64 -> exists u : binary_float 53 1024, f_unit raw = B2SF u /\ is_finite u = true /\ B2R u = (IZR (raw / 2 ^ 11) * / IZR (2 ^ 53))%R /\ (0 <= B2R u < 1)%R).
+Proof. exact (conj c14_float_in_range_real c14_float_unit_in_0_1). Qed.
